@@ -406,7 +406,7 @@ func freeCase(all []*Call, writes []*WriteRec) string {
 		byG[c.G] = append(byG[c.G], c)
 	}
 	next := map[int]int{}
-	var groups, snaps, calls, wire []string
+	var groups, snaps, calls, wire, wireIDs []string
 	var order []*Call
 	nw := 0
 	emitSnap := func() {
@@ -416,7 +416,7 @@ func freeCase(all []*Call, writes []*WriteRec) string {
 				rets = append(rets, fmt.Sprintf("(%d%%nat, %s)", c.ID, c.resTerm()))
 			}
 		}
-		snaps = append(snaps, fmt.Sprintf("(%s, 0, %d, 0, false)", coqList(rets), nw))
+		snaps = append(snaps, fmt.Sprintf("((%s, 0, %d, 0, false), %s)", coqList(rets), nw, coqList(append([]string(nil), wireIDs...))))
 	}
 	// advance goroutine g: start its next calls until one reaches the transport (is held)
 	var advance func(g int) []string
@@ -456,6 +456,7 @@ func freeCase(all []*Call, writes []*WriteRec) string {
 		evs = append(evs, advance(c.G)...)
 		cur[c.G] = c
 		groups = append(groups, coqList(evs))
+		wireIDs = append(wireIDs, coqZ(int64(c.ID)))
 		emitSnap()
 		wire = append(wire, fmt.Sprintf("WCall %d %s", c.ID, coqHex(wr.Data)))
 	}
